@@ -1,8 +1,14 @@
 (* Props/C01.v — property-level statements for C01 (element-wise operations and broadcasting).
-   Only statements, each closed by [exact] of a lemma proved in Proofs/ElemwiseP.v, with
-   Print Assumptions beneath. *)
+   Only statements, each closed by [exact] of a lemma proved in Proofs/Elemwise*.v, with
+   Print Assumptions beneath.
+
+   Reading guide.  Model/Elemwise.v transcribes sparse/numba_backend/_umath.py; the broadcast rule inside
+   it is the Gallina text regenerated from /repo on every run (Gen/G_umath.v, Gen/S_umath.v).
+   Spec/NpElemwise.v is NumPy's meaning: [np_broadcast_rel shapes r] (r is the broadcast of the shapes),
+   [bcast_idx s q] (the index at which an operand of shape s is read for result index q).
+   [F V vzero f args q] = f applied to the operands' values at q = numpy's f(densified operands)[q]. *)
 From Coq Require Import ZArith List Bool Sorting.Sorted.
-From Verif Require Import Py Shape COO COOP NpElemwise Elemwise ElemwiseP.
+From Verif Require Import Py Shape COO COOP NpElemwise Elemwise ElemwiseP ElemwiseBcastP ElemwiseGenP.
 Import ListNotations.
 Open Scope Z_scope.
 
@@ -24,3 +30,59 @@ Theorem match_arrays_spec (a b : list Z) :
   filter (fun ij => nthZ a (fst ij) =? nthZ b (snd ij)) (list_prod (seq 0 (length a)) (seq 0 (length b))).
 Proof. exact (match_arrays_spec_proof a b). Qed.
 Print Assumptions match_arrays_spec.
+
+(* (3) same-shape binary case, written out through the three masks (both / only a / only b):
+   shape, fill = f(fills), canonical, pruned, and every element = f of the operands' elements. *)
+Theorem elemwise2_den (V : Type) (veqb : V -> V -> bool) (vzero : V) (f : list V -> V) :
+  (forall x y, veqb x y = true <-> x = y) ->
+  forall a b : coo V, canonical V a -> canonical V b -> c_shape a = c_shape b ->
+  let r := elemwise2 V veqb vzero f a b in
+  c_shape r = c_shape a /\ c_fill r = f [c_fill a; c_fill b] /\ canonical V r /\ prunedb veqb r = true /\
+  forall ix, in_range (c_shape a) ix -> den r ix = f [den a ix; den b ix].
+Proof. exact (elemwise2_den_proof V veqb vzero f). Qed.
+Print Assumptions elemwise2_den.
+
+(* the mask enumeration partitions the stored positions: the piece computed for mask m holds exactly
+   the positions q of the result shape whose set of storing operands IS m (mask_of args q), with
+   NumPy's value there, unless that value equals the result's fill value; and holds each once.  Hence
+   the concatenation of the pieces has no duplicates (the promise has_duplicates=False). *)
+Theorem mask_partition (V : Type) (veqb : V -> V -> bool) (vzero : V) (f : list V -> V)
+        (args : list (operand V)) (sh : shape) (fill : V) :
+  Forall (op_ok V) args -> np_broadcast_rel (map (op_shape V) args) sh -> shape_ok sh ->
+  forall m, In m (masks V args) -> existsb is_true m = true ->
+  exists o, func_coords_data V veqb vzero f args sh fill m = Ok o /\
+    NoDup (map fst (piece_of V o)) /\
+    forall q v, In (q, v) (piece_of V o) <->
+      (in_range sh q /\ m = mask_of V args q /\ v = F V vzero f args q /\ veqb v fill = false).
+Proof. exact (mask_partition_proof V veqb vzero f args sh fill). Qed.
+Print Assumptions mask_partition.
+
+(* (4) the general case: any number of operands, each a canonical COO array of any shape (0-d
+   included), a scalar / 0-d array or an ndarray, mutually broadcastable or not.  [elemwise_post] says,
+   for what get_result returns:
+   - OutSparse r: the shapes have the NumPy broadcast sh, func(fill values, ndarrays) is a constant
+     array, and r has shape sh, fill value = that constant (= f(fill values) when the dense operands are
+     scalars), is canonical and pruned, and  den r q = f(operands' values at q)  at EVERY index q of sh;
+   - OutDense d: func(fills, ndarrays) is not constant, the ndarrays already have the full shape, and d
+     is exactly NumPy's dense result;
+   - OutErr e: e = ValueError, and either the shapes are not broadcastable or func(fills, ndarrays) is not
+     constant while the ndarrays do not have the full shape.  (dense_mix_rule) *)
+Theorem elemwise_den (V : Type) (veqb : V -> V -> bool) (vzero : V) (f : list V -> V) :
+  (forall x y, veqb x y = true <-> x = y) ->
+  forall args : list (operand V),
+  Forall (op_ok V) args -> existsb (is_sparse V) args = true ->
+  elemwise_post V veqb vzero f args (elemwise V veqb vzero f args).
+Proof. exact (elemwise_den_proof V veqb vzero f). Qed.
+Print Assumptions elemwise_den.
+
+(* (5) programs: for every expression tree over canonical sparse arrays and scalars (unary, binary,
+   ternary nodes, each with its own function) that NumPy can evaluate on the densified leaves
+   ([dense_eval e sh d]: shape sh, value function d), the step-by-step sparse evaluation succeeds and
+   yields a value of shape sh, canonical, whose dense meaning is d everywhere. *)
+Theorem programs_den (V : Type) (veqb : V -> V -> bool) (vzero : V) :
+  (forall x y, veqb x y = true <-> x = y) ->
+  forall e : expr V, wf_expr V e -> forall sh d, dense_eval V e sh d ->
+  exists a, eval V veqb vzero e = Some a /\ op_shape V a = sh /\ val_ok V a /\
+            forall q, in_range sh q -> operand_at V vzero a q = d q.
+Proof. exact (programs_proof V veqb vzero). Qed.
+Print Assumptions programs_den.
